@@ -487,7 +487,7 @@ def doCsCall (d : DS) (name : String) (t : Toks) : Option (DS × String) :=
       let e := tg - Spec.bodyToBase M st b p
       (a + e.dot e, t)) (0, t)
     some (also r d "IK1.res.info" (showRat res2 ++ " " ++ showRat (stepTol * stepTol)))
-  | "IK2" =>
+  | "IK2" | "IK2c" =>
     let r := out d name (" ".intercalate d.impl)
     if d.impl.isEmpty then some r else
     let nonfinite := (d.impl.filter (fun s => (parseRat s).isNone)).length
